@@ -13,7 +13,7 @@ import os
 from .. import build, driver, hyp, xcase, xgen, xlang, xmin, xref
 
 RULE = ('G-X: typed top-down generator (0-4 vals incl. chains and pool-boundary values, 0-4 global vars, 0-3 arrays, 0-8 procedures/functions '
-        'in shuffled order with shadowing names, value and array formals, array+length pairs, string actuals, recursion and mutual recursion '
+        'in shuffled order with shadowing names, value and array formals, array+length pairs, string actuals (0..255 characters, bytes up to 0xFE, whole-word probes), recursion and mutual recursion '
         'templates, all ten operators, associative chains, redundant parentheses, counter and free loops, reads/writes on console and file '
         'streams) x generated input bytes; pairs outside the domain (overflow, comparison-difference overflow, order-dependent side effects, '
         'unassigned reads, bad subscripts, depth/step budget) are discarded by xref and counted per reason. Non-trivial = xref executed a user '
@@ -31,6 +31,8 @@ def static_classes(P):
             break
     if any(len(p['formals']) >= 5 for p in P['procs']):
         cl.append('many-formals')
+    if any(len(p['locals']) >= 13 for p in P['procs']):
+        cl.append('large-frame')
     return cl
 
 
@@ -132,7 +134,10 @@ def run(ctx):
                        'stop = exit value 0; reading past end of input yields 255; conditions are boolean-typed',
                        'evaluation order between the operands of a non-short-circuit operator, between subscript and right-hand side, and '
                        'between actuals (apart from I/O, which is left to right) is left open: conflicting pairs are outside the domain',
-                       'the condition of an if with two skip arms contains no call (xcmp documents dropping such statements)']
+                       'the condition of an if with two skip arms contains no call (xcmp documents dropping such statements)',
+                       'a string literal is packed byte for byte (length byte first, bytes 0x80..0xFE denote themselves); character constants are '
+                       'ASCII (the value of a non-ASCII character constant is not defined by the language notes) and 0xFF never occurs in a source '
+                       '(xcmp\'s lexer takes it for end of file)']
     build.build_many(['xtool'])
     quick = ctx.tier == 'quick'
     for path in driver.regress_files('C01'):
